@@ -219,6 +219,35 @@ def pred_tucker(X, rank, core, factors):
     return None
 
 
+def mode_mul(Z, M, k):
+    """n-mode product Z x_k M (M: new_size x old_size), plain tensordot"""
+    return np.moveaxis(np.tensordot(M, Z, axes=([1], [k])), 0, k)
+
+
+def pred_tucker_identity(X, core, factors):
+    """transcription of C09_tucker_error_identity / C09_tucker_error_upper_R for the returned (core, factors):
+    if the factors have orthonormal columns, squared error = sum_k |Z_k - P_k Z_k|^2 (Z_0 = X, Z_{k+1} = Z_k x_k U_k^T)
+    and <= sum_k |X - P_k X|^2."""
+    Xf = np.asarray(X, dtype=float)
+    Us = [np.asarray(U, dtype=float) for U in factors]
+    for U in Us:
+        if U.shape[1] and np.max(np.abs(U.T @ U - np.eye(U.shape[1]))) > 1e-8:
+            return None          # the identity is stated for orthonormal columns only
+    nx2 = fro(Xf) ** 2
+    err2 = fro(Xf - tucker_full(core, factors)) ** 2
+    Z = Xf; disc = 0.0; resid = 0.0
+    for k, U in enumerate(Us):
+        disc += fro(Z - mode_mul(mode_mul(Z, U.T, k), U, k)) ** 2
+        resid += fro(Xf - mode_mul(mode_mul(Xf, U.T, k), U, k)) ** 2
+        Z = mode_mul(Z, U.T, k)
+    if abs(err2 - disc) > 1e-9 * nx2 + 1e-7 * max(err2, disc):
+        return (f"tucker: squared error {err2:.9e} differs from the sum over modes of what the mode projectors discard "
+                f"{disc:.9e} (Tucker error identity for orthonormal factors; is the core X x_k U_k^T ?)")
+    if err2 > resid * (1 + SLACK) + REL * nx2:
+        return f"tucker: squared error {err2:.9e} exceeds the sum over modes of |X - P_k X|^2 = {resid:.9e}"
+    return None
+
+
 def pred_tr(X, rank, mode, factors, sufficient):
     n = X.ndim
     req = [rank] * (n + 1) if isinstance(rank, int) else list(rank)
@@ -292,7 +321,7 @@ def predicate(kind, X, rank, extra, st, v, info, calls=None):
                 msg = pred_tt_identity(interleave(np.asarray(X)), merged, calls, "tensor_train_matrix")
             return msg
         if kind == "tucker":
-            return pred_tucker(X, rank, v[0], v[1])
+            return pred_tucker(X, rank, v[0], v[1]) or pred_tucker_identity(X, v[0], v[1])
         if kind == "tr":
             return pred_tr(X, rank, extra.get("mode", 0), v, info.get("sufficient", False))
     except Exception as e:  # malformed output (shapes that cannot be contracted ...)
@@ -426,6 +455,11 @@ def gen_predicate_cases(tier, rng, nrng):
             mode = rng.randrange(order)
             sufficient = rng.random() < 0.5
             rank = tr_rank_for(rng, list(shape), mode, sufficient)
+            if rng.random() < 0.25:      # a single int for every bond (validate_tr_rank's int branch), when the first SVD allows it
+                rot = list(shape[mode:] + shape[:mode])
+                r = rng.choice([1, 2, 2, 3])
+                if r * r <= min(rot[0], int(np.prod(rot[1:]))):
+                    rank, sufficient = r, False
             yield kind, X, rank, {"mode": mode}, {"cls": cls, "sufficient": sufficient}
 
 
@@ -442,6 +476,16 @@ def gen_corr_cases(tier, rng, nrng):
     """small cases for the model <-> implementation comparison inside Coq"""
     shapes = small_shapes(tier)
     N = 170 if tier == "quick" else 1500
+    # tensor_ring with ONE int >= 2 for every bond: valid only when the first unfolding has min dimension >= 4
+    for i in range(6 if tier == "quick" else 40):
+        shape, modes = rng.choice([((4, 2, 2), [0]), ((2, 4, 2), [1]), ((4, 4), [0, 1]), ((2, 2, 4), [2]), ((4, 2, 3), [0]), ((2, 2, 2, 4), [3])])
+        cls = CLASSES[i % len(CLASSES)]
+        X = make_tensor(cls, shape, nrng, rng)
+        if X.dtype.kind == "f":
+            X = np.round(X * 16) / 16
+            if not X.any():
+                X.flat[0] = 1.0
+        yield "tr", X, 2, {"mode": rng.choice(modes)}, {"cls": cls, "valid": True, "sufficient": False}
     for i in range(N):
         shape = shapes[rng.randrange(len(shapes))]
         order = len(shape)
